@@ -107,6 +107,50 @@ theorem keystream_panic (P : Prims) (s : State) {pos len : Nat} (h : 64 * (2 ^ 3
 theorem STREAM_BODY_MAX_eq : STREAM_BODY_MAX = 274877906752 := by decide
 theorem MESSAGEBYTES_MAX_RAW_eq : MESSAGEBYTES_MAX_RAW = 274877906816 := by decide
 
+/-- the constant of the fixed source, `KEYSTREAM_MESSAGEBYTES_MAX = MESSAGEBYTES_MAX − 64`, IS the crate's
+key-stream limit after `seek(128)` -/
+theorem KEYSTREAM_MESSAGEBYTES_MAX_eq : KEYSTREAM_MESSAGEBYTES_MAX = STREAM_BODY_MAX := by decide
+
+/-- the longest MESSAGE the length guard of `push` lets through: current source / before fix E16 -/
+def pushMax (fix16 : Bool) : Nat := if fix16 then STREAM_BODY_MAX else MESSAGEBYTES_MAX_RAW
+
+/-- the longest CIPHERTEXT the third length guard of `pull` lets through: current source (`mlen` is compared)
+/ before fix E16 (`ciphertext.len()` is compared) -/
+def pullMax (fix16 : Bool) : Nat := if fix16 then STREAM_BODY_MAX + 17 else MESSAGEBYTES_MAX_RAW
+
+theorem pushMax_true : pushMax true = 274877906752 := by decide
+theorem pushMax_false : pushMax false = 274877906816 := by decide
+theorem pullMax_true : pullMax true = 274877906752 + 17 := by decide
+theorem pullMax_false : pullMax false = 274877906816 := by decide
+
+theorem pushMax_le (f : Bool) : pushMax f ≤ 274877906816 := by
+  cases f
+  · rw [pushMax_false]; omega
+  · rw [pushMax_true]; omega
+
+theorem pullMax_le (f : Bool) : pullMax f ≤ 274877906816 := by
+  cases f
+  · rw [pullMax_false]; omega
+  · rw [pullMax_true]; omega
+
+theorem pushMaxGuard_eq (f : Bool) (n : Nat) :
+    pushMaxGuard f n = if pushMax f < n then .err else .ok () := by
+  cases f <;> rfl
+
+theorem pullMaxGuard_eq (f : Bool) (n : Nat) (h1 : 17 ≤ n) :
+    pullMaxGuard f n = if pullMax f < n then .err else .ok () := by
+  cases f
+  · rfl
+  · have hB := STREAM_BODY_MAX_eq
+    unfold pullMaxGuard pullMax
+    simp only [if_true]
+    unfold ABYTES
+    rw [checkedSub_ok h1, ok_bind]
+    unfold errIf
+    by_cases h : STREAM_BODY_MAX + 17 < n
+    · rw [if_pos h, if_pos (by omega)]
+    · rw [if_neg h, if_neg (by omega)]
+
 theorem zeros_take (n k : Nat) (h : k ≤ n) : (zeros n).take k = zeros k := by
   unfold zeros; rw [List.take_replicate, Nat.min_eq_left h]
 
@@ -127,12 +171,13 @@ theorem tagBlockRaw_eq (P : Prims) (s : State) (c0 : UInt8) (rest : Bytes) :
 
 theorem pad16_le (n : Nat) : pad16 n ≤ 16 := by rw [pad16_eq]; omega
 
-/-- the code-shaped body for every length the guards let through, up to the last key-stream request
+/-- the code-shaped body (current source `f = true`, before fix E16 `f = false`) for every length the three
+guards let through, up to the last key-stream request
 (`cipher.seek(128); cipher.apply_keystream(&mut message[..mlen])`), which is left as it is: every checked
 operation in front of it succeeds -/
-theorem pullRawBody_mid (g : Bool) (P : Prims) (s : State) (m ct ad : Bytes)
-    (h1 : 17 ≤ ct.length) (h2 : ct.length - 17 ≤ m.length) (h3 : ct.length ≤ MESSAGEBYTES_MAX_RAW) :
-    pullRawBody g P s m ct ad =
+theorem pullRawBodyWith_mid (g f : Bool) (P : Prims) (s : State) (m ct ad : Bytes)
+    (h1 : 17 ≤ ct.length) (h2 : ct.length - 17 ≤ m.length) (h3 : ct.length ≤ pullMax f) :
+    pullRawBodyWith g f P s m ct ad =
       if ct.drop (1 + (ct.length - 17)) ≠ pullMac P s ct ad then .err
       else (keystream P s 128 (ct.length - 17)) >>= fun ks =>
         .ok ⟨.ok (ct.length - 17),
@@ -142,18 +187,19 @@ theorem pullRawBody_mid (g : Bool) (P : Prims) (s : State) (m ct ad : Bytes)
     cases ct with
     | nil => simp at h1
     | cons a b => exact ⟨a, b, rfl⟩
-  have hM : MESSAGEBYTES_MAX_RAW = 274877906816 := by decide
-  rw [hM] at h3
+  have hM := pullMax_le f
   generalize hct : (c0 :: rest) = ct at *
   have hg : errIfWhen g (ct.length < ABYTES) = Outcome.ok () := by
     cases g
     · rfl
     · exact errIf_neg (by unfold ABYTES; omega)
-  unfold pullRawBody
+  have hmg : pullMaxGuard f ct.length = Outcome.ok () := by
+    rw [pullMaxGuard_eq f _ h1, if_neg (by omega)]
+  unfold pullRawBodyWith
   simp only []
-  rw [hg, ok_bind]
+  rw [hg, ok_bind, hmg]
   unfold ABYTES
-  rw [checkedSub_ok h1, ok_bind, errIf_neg (by omega), ok_bind, errIf_neg (by rw [hM]; omega), ok_bind,
+  rw [checkedSub_ok h1, ok_bind, errIf_neg (by omega), ok_bind, ok_bind,
     keystream_ok P s (by omega), ok_bind, sliceTo_ok (by rw [zeros_length]; exact pad16_le _), ok_bind]
   subst hct
   rw [tagBlockRaw_eq, ok_bind]
@@ -186,8 +232,24 @@ theorem pullRawBody_mid (g : Bool) (P : Prims) (s : State) (m ct ad : Bytes)
     rfl
   · rw [errIf_pos (by simpa using hauth), err_bind, if_pos (by simpa using hauth)]
 
-/-- the accepted-lengths path of the code-shaped body: every checked operation succeeds.  The length
-hypothesis is the crate's key-stream limit (`STREAM_BODY_MAX + 17`), 47 bytes below `MESSAGEBYTES_MAX_RAW`. -/
+/-- the accepted-lengths path of the code-shaped body (either version): every checked operation succeeds.  The
+length hypothesis is the crate's key-stream limit (`STREAM_BODY_MAX + 17`) — for the current source that is
+exactly what the third guard lets through. -/
+theorem pullRawBodyWith_main (g f : Bool) (P : Prims) (s : State) (m ct ad : Bytes)
+    (h1 : 17 ≤ ct.length) (h2 : ct.length - 17 ≤ m.length) (h3 : ct.length ≤ STREAM_BODY_MAX + 17) :
+    pullRawBodyWith g f P s m ct ad =
+      if ct.drop (1 + (ct.length - 17)) ≠ pullMac P s ct ad then .err
+      else .ok ⟨.ok (ct.length - 17),
+            xorBytes ((ct.drop 1).take (ct.length - 17)) (P.chacha s.k s.nonce 2 (ct.length - 17))
+              ++ m.drop (ct.length - 17),
+            pullTag P s ct, advance P s (pullMac P s ct ad) (pullTag P s ct)⟩ := by
+  have hB := STREAM_BODY_MAX_eq
+  have h3' : ct.length ≤ pullMax f := by
+    cases f
+    · rw [pullMax_false]; omega
+    · rw [pullMax_true]; omega
+  rw [pullRawBodyWith_mid g f P s m ct ad h1 h2 h3', keystream_ok P s (by omega), ok_bind]
+
 theorem pullRawBody_main (g : Bool) (P : Prims) (s : State) (m ct ad : Bytes)
     (h1 : 17 ≤ ct.length) (h2 : ct.length - 17 ≤ m.length) (h3 : ct.length ≤ STREAM_BODY_MAX + 17) :
     pullRawBody g P s m ct ad =
@@ -195,126 +257,224 @@ theorem pullRawBody_main (g : Bool) (P : Prims) (s : State) (m ct ad : Bytes)
       else .ok ⟨.ok (ct.length - 17),
             xorBytes ((ct.drop 1).take (ct.length - 17)) (P.chacha s.k s.nonce 2 (ct.length - 17))
               ++ m.drop (ct.length - 17),
-            pullTag P s ct, advance P s (pullMac P s ct ad) (pullTag P s ct)⟩ := by
-  have hB := STREAM_BODY_MAX_eq
-  have hM := MESSAGEBYTES_MAX_RAW_eq
-  rw [pullRawBody_mid g P s m ct ad h1 h2 (by omega), keystream_ok P s (by omega), ok_bind]
+            pullTag P s ct, advance P s (pullMac P s ct ad) (pullTag P s ct)⟩ :=
+  pullRawBodyWith_main g true P s m ct ad h1 h2 h3
 
-/-- **the window between the crate's limit and the source's guard**: the lengths pass all three guards, the
-authenticator verifies, and `cipher.apply_keystream(&mut message[..mlen])` asks for more blocks than
-`remaining_blocks()` — the `unwrap()` inside `apply_keystream` panics -/
-theorem pullRawBody_near_max (g : Bool) (P : Prims) (s : State) (m ct ad : Bytes)
+/-- **pre-fix code (E16): the window between the crate's limit and the old guard**: the lengths pass all three
+guards, the authenticator verifies, and `cipher.apply_keystream(&mut message[..mlen])` asks for more blocks
+than `remaining_blocks()` — the `unwrap()` inside `apply_keystream` panics -/
+theorem pullRawBodyOld16_near_max (g : Bool) (P : Prims) (s : State) (m ct ad : Bytes)
     (h1 : STREAM_BODY_MAX + 17 < ct.length) (h3 : ct.length ≤ MESSAGEBYTES_MAX_RAW)
     (h2 : ct.length - 17 ≤ m.length)
     (hauth : ct.drop (1 + (ct.length - 17)) = pullMac P s ct ad) :
-    pullRawBody g P s m ct ad = .panic := by
+    pullRawBodyOld16 g P s m ct ad = .panic := by
   have hB := STREAM_BODY_MAX_eq
-  rw [pullRawBody_mid g P s m ct ad (by omega) h2 h3, if_neg (by simpa using hauth),
+  unfold pullRawBodyOld16
+  rw [pullRawBodyWith_mid g false P s m ct ad (by omega) h2 h3, if_neg (by simpa using hauth),
     keystream_panic P s (by omega), panic_bind]
 
 /-- … while a ciphertext in the window whose authenticator does NOT verify is an ordinary `Err` -/
-theorem pullRawBody_near_max_forged (g : Bool) (P : Prims) (s : State) (m ct ad : Bytes)
+theorem pullRawBodyOld16_near_max_forged (g : Bool) (P : Prims) (s : State) (m ct ad : Bytes)
     (h1 : 17 ≤ ct.length) (h3 : ct.length ≤ MESSAGEBYTES_MAX_RAW) (h2 : ct.length - 17 ≤ m.length)
     (hauth : ct.drop (1 + (ct.length - 17)) ≠ pullMac P s ct ad) :
-    pullRawBody g P s m ct ad = .err := by
-  rw [pullRawBody_mid g P s m ct ad h1 h2 h3, if_pos hauth]
+    pullRawBodyOld16 g P s m ct ad = .err := by
+  unfold pullRawBodyOld16
+  rw [pullRawBodyWith_mid g false P s m ct ad h1 h2 h3, if_pos hauth]
 
-theorem pullRawBody_short (P : Prims) (s : State) (m ct ad : Bytes) (h : ct.length < 17) :
-    pullRawBody true P s m ct ad = .err := by
-  unfold pullRawBody
+theorem pullRawBodyWith_short (f : Bool) (P : Prims) (s : State) (m ct ad : Bytes) (h : ct.length < 17) :
+    pullRawBodyWith true f P s m ct ad = .err := by
+  unfold pullRawBodyWith
   simp only []
   have : errIfWhen true (ct.length < ABYTES) = .err := errIf_pos (by unfold ABYTES; exact h)
   rw [this, err_bind]
 
+theorem pullRawBody_short (P : Prims) (s : State) (m ct ad : Bytes) (h : ct.length < 17) :
+    pullRawBody true P s m ct ad = .err := pullRawBodyWith_short true P s m ct ad h
+
 /-- before fix E5: the subtraction `ciphertext.len() - ABYTES` is the first thing evaluated -/
 theorem pullRawBody_old_short (P : Prims) (s : State) (m ct ad : Bytes) (h : ct.length < 17) :
     pullRawBody false P s m ct ad = .panic := by
-  unfold pullRawBody
+  unfold pullRawBody pullRawBodyWith
   simp only []
   have : errIfWhen false (ct.length < ABYTES) = .ok () := rfl
   rw [this, ok_bind, checkedSub_panic (by unfold ABYTES; exact h), panic_bind]
 
-theorem pullRawBody_smallbuf (g : Bool) (P : Prims) (s : State) (m ct ad : Bytes)
+theorem pullRawBodyWith_smallbuf (g f : Bool) (P : Prims) (s : State) (m ct ad : Bytes)
     (h1 : 17 ≤ ct.length) (h2 : m.length < ct.length - 17) :
-    pullRawBody g P s m ct ad = .err := by
+    pullRawBodyWith g f P s m ct ad = .err := by
   have hg : errIfWhen g (ct.length < ABYTES) = Outcome.ok () := by
     cases g
     · rfl
     · exact errIf_neg (by unfold ABYTES; omega)
-  unfold pullRawBody
+  unfold pullRawBodyWith
   simp only []
   rw [hg, ok_bind]
   unfold ABYTES
   rw [checkedSub_ok h1, ok_bind, errIf_pos h2, err_bind]
 
-theorem pullRawBody_long (g : Bool) (P : Prims) (s : State) (m ct ad : Bytes)
-    (h3 : MESSAGEBYTES_MAX_RAW < ct.length) : pullRawBody g P s m ct ad = .err := by
-  have hM : MESSAGEBYTES_MAX_RAW = 274877906816 := by decide
-  have h1 : 17 ≤ ct.length := by omega
+theorem pullRawBody_smallbuf (g : Bool) (P : Prims) (s : State) (m ct ad : Bytes)
+    (h1 : 17 ≤ ct.length) (h2 : m.length < ct.length - 17) :
+    pullRawBody g P s m ct ad = .err := pullRawBodyWith_smallbuf g true P s m ct ad h1 h2
+
+/-- the third guard (either version) rejects -/
+theorem pullRawBodyWith_long (g f : Bool) (P : Prims) (s : State) (m ct ad : Bytes)
+    (h1 : 17 ≤ ct.length) (h3 : pullMax f < ct.length) : pullRawBodyWith g f P s m ct ad = .err := by
   have hg : errIfWhen g (ct.length < ABYTES) = Outcome.ok () := by
     cases g
     · rfl
     · exact errIf_neg (by unfold ABYTES; omega)
-  unfold pullRawBody
+  have hmg : pullMaxGuard f ct.length = Outcome.err := by
+    rw [pullMaxGuard_eq f _ h1, if_pos h3]
+  unfold pullRawBodyWith
   simp only []
-  rw [hg, ok_bind]
+  rw [hg, ok_bind, hmg]
   unfold ABYTES
   rw [checkedSub_ok h1, ok_bind]
   by_cases h2 : m.length < ct.length - 17
   · rw [errIf_pos h2, err_bind]
-  · rw [errIf_neg h2, ok_bind, errIf_pos h3, err_bind]
+  · rw [errIf_neg h2, ok_bind, err_bind]
+
+/-- the fixed third guard: a ciphertext of more than `STREAM_BODY_MAX + 17` bytes is an `Err` -/
+theorem pullRawBody_long (g : Bool) (P : Prims) (s : State) (m ct ad : Bytes)
+    (h3 : STREAM_BODY_MAX + 17 < ct.length) : pullRawBody g P s m ct ad = .err :=
+  pullRawBodyWith_long g true P s m ct ad (by omega) (by rw [pullMax_true, ← STREAM_BODY_MAX_eq]; exact h3)
+
+/-- the third guard before fix E16 -/
+theorem pullRawBodyOld16_long (g : Bool) (P : Prims) (s : State) (m ct ad : Bytes)
+    (h3 : MESSAGEBYTES_MAX_RAW < ct.length) : pullRawBodyOld16 g P s m ct ad = .err := by
+  have hM := MESSAGEBYTES_MAX_RAW_eq
+  exact pullRawBodyWith_long g false P s m ct ad (by omega) (by rw [pullMax_false, ← hM]; exact h3)
 
 /-- for ciphertexts of at least 17 bytes the code before fix E5 is the current code -/
 theorem pullRawBody_old_eq (P : Prims) (s : State) (m ct ad : Bytes) (h1 : 17 ≤ ct.length) :
     pullRawBody false P s m ct ad = pullRawBody true P s m ct ad := by
-  by_cases h3 : MESSAGEBYTES_MAX_RAW < ct.length
-  · rw [pullRawBody_long _ P s m ct ad h3, pullRawBody_long _ P s m ct ad h3]
+  unfold pullRawBody
+  by_cases h3 : pullMax true < ct.length
+  · rw [pullRawBodyWith_long _ _ P s m ct ad h1 h3, pullRawBodyWith_long _ _ P s m ct ad h1 h3]
   by_cases h2 : m.length < ct.length - 17
-  · rw [pullRawBody_smallbuf _ P s m ct ad h1 h2, pullRawBody_smallbuf _ P s m ct ad h1 h2]
-  · rw [pullRawBody_mid _ P s m ct ad h1 (by omega) (by omega),
-      pullRawBody_mid _ P s m ct ad h1 (by omega) (by omega)]
+  · rw [pullRawBodyWith_smallbuf _ _ P s m ct ad h1 h2, pullRawBodyWith_smallbuf _ _ P s m ct ad h1 h2]
+  · rw [pullRawBodyWith_mid _ _ P s m ct ad h1 (by omega) (by omega),
+      pullRawBodyWith_mid _ _ P s m ct ad h1 (by omega) (by omega)]
 
-/-- **the code-shaped `pull` is the total model**: with the guards of the source in place, no checked
-subtraction, addition, slice, index, `copy_from_slice` or key-stream request fails, for any ciphertext of at
-most `STREAM_BODY_MAX + 17 = 64·(2^32 − 3) + 17` bytes, any associated data, message buffer and state.
-(That is 47 bytes less than `MESSAGEBYTES_MAX_RAW`, the bound the source checks: see `pullRaw_panics_near_max`.)
+/-- **the code-shaped `pull` is the guarded total model, for EVERY input** (since fix E16): with the three
+guards of the source in place, no checked subtraction, addition, slice, index, `copy_from_slice` or key-stream
+request fails, for any ciphertext (any length), associated data, message buffer and state; and the guards are
+those of `pullChecked`.  No hypothesis.
 
 What this theorem does NOT see: `pullRawWith` maps every `.err` of the body to the untouched buffers by
 construction (every `return Err` of the Rust precedes its first write, and the model is written in that
 order), so a mutation that moved `*tag = decrypted_tag` in front of the MAC comparison would need a changed
 hand model to be noticed here — it is caught by the differential run of C17 only. -/
-theorem pullRaw_eq_pull (P : Prims) (s : State) (m : Bytes) (tagv : UInt8) (ct ad : Bytes)
-    (h3 : ct.length ≤ STREAM_BODY_MAX + 17) : pullRaw P s m tagv ct ad = pull P s m tagv ct ad := by
-  unfold pullRaw pullRawWith
-  rw [pull_eq]
+theorem pullRaw_eq_pullChecked (P : Prims) (s : State) (m : Bytes) (tagv : UInt8) (ct ad : Bytes) :
+    pullRaw P s m tagv ct ad = pullChecked P s m tagv ct ad := by
+  have hB := STREAM_BODY_MAX_eq
+  have hK := KEYSTREAM_MESSAGEBYTES_MAX_eq
+  unfold pullRaw pullRawWith pullChecked
+  unfold ABYTES
   by_cases h1 : ct.length < 17
   · rw [pullRawBody_short P s m ct ad h1, if_pos h1]
   rw [if_neg h1]
   by_cases h2 : m.length < ct.length - 17
   · rw [pullRawBody_smallbuf _ P s m ct ad (by omega) h2, if_pos h2]
-  rw [if_neg h2, pullRawBody_main _ P s m ct ad (by omega) (by omega) h3]
+  rw [if_neg h2]
+  by_cases h3 : ct.length - 17 > KEYSTREAM_MESSAGEBYTES_MAX
+  · rw [if_pos h3, pullRawBody_long _ P s m ct ad (by omega)]
+  rw [if_neg h3, pull_eq, if_neg h1, if_neg h2, pullRawBody_main _ P s m ct ad (by omega) (by omega) (by omega)]
   by_cases hauth : ct.drop (1 + (ct.length - 17)) ≠ pullMac P s ct ad
   · rw [if_pos hauth, if_pos hauth]
   · rw [if_neg hauth, if_neg hauth]
 
-theorem pullRaw_too_long (P : Prims) (s : State) (m : Bytes) (tagv : UInt8) (ct ad : Bytes)
-    (h3 : MESSAGEBYTES_MAX_RAW < ct.length) : pullRaw P s m tagv ct ad = ⟨.err, m, tagv, s⟩ := by
+/-- **the code-shaped `pull` is the guard-free total model** `pull` for every ciphertext the third guard lets
+through (`ciphertext.len() − 17 ≤ STREAM_BODY_MAX`).  The hypothesis is needed only because `pull` has no
+length guard (beyond it `pullRaw` is an `Err`, `pullRaw_err_near_max`, and `pull` computes); with the guard in
+the model no hypothesis is needed: `pullRaw_eq_pullChecked`. -/
+theorem pullRaw_eq_pull (P : Prims) (s : State) (m : Bytes) (tagv : UInt8) (ct ad : Bytes)
+    (h3 : ct.length ≤ STREAM_BODY_MAX + 17) : pullRaw P s m tagv ct ad = pull P s m tagv ct ad := by
+  rw [pullRaw_eq_pullChecked, pullChecked_eq_pull P s m tagv ct ad (by rw [KEYSTREAM_MESSAGEBYTES_MAX_eq]; exact h3)]
+
+/-- **fixed code (E16): the third guard.**  A ciphertext of more than `STREAM_BODY_MAX + 17` bytes — the
+lengths on which the code before the fix panicked included — is an `Err` that leaves state, message buffer and
+tag variable as they were, whatever the buffer size and the authenticator. -/
+theorem pullRaw_err_near_max (P : Prims) (s : State) (m : Bytes) (tagv : UInt8) (ct ad : Bytes)
+    (h3 : STREAM_BODY_MAX + 17 < ct.length) : pullRaw P s m tagv ct ad = ⟨.err, m, tagv, s⟩ := by
   unfold pullRaw pullRawWith
   rw [pullRawBody_long _ P s m ct ad h3]
 
-/-- **latent defect**: a ciphertext whose length lies strictly between the crate's key-stream limit and the
-guard of the source, whose authenticator verifies, into a buffer that is large enough: PANIC -/
-theorem pullRaw_panics_near_max (P : Prims) (s : State) (m : Bytes) (tagv : UInt8) (ct ad : Bytes)
+theorem pullRaw_too_long (P : Prims) (s : State) (m : Bytes) (tagv : UInt8) (ct ad : Bytes)
+    (h3 : STREAM_BODY_MAX + 17 < ct.length) : pullRaw P s m tagv ct ad = ⟨.err, m, tagv, s⟩ :=
+  pullRaw_err_near_max P s m tagv ct ad h3
+
+/-- **the classic `pull`, as written, cannot panic** — any ciphertext (any length), buffer, AD, state -/
+theorem pullRaw_never_panics (P : Prims) (s : State) (m : Bytes) (tagv : UInt8) (ct ad : Bytes) :
+    (pullRaw P s m tagv ct ad).res ≠ .panic := by
+  rw [pullRaw_eq_pullChecked]
+  rcases pullChecked_cases P s m tagv ct ad with e | e
+  · rw [e, pull_eq]
+    split; · simp
+    split; · simp
+    split <;> simp
+  · rw [e]; simp
+
+/-- kept under its old name: since fix E16 there is no window of lengths to stay out of -/
+theorem pullRaw_never_panics_outside_window (P : Prims) (s : State) (m : Bytes) (tagv : UInt8) (ct ad : Bytes) :
+    (pullRaw P s m tagv ct ad).res ≠ .panic := pullRaw_never_panics P s m tagv ct ad
+
+/-- whatever the length: an `Err` of the classic `pull` as written leaves state, buffer and tag variable -/
+theorem pullRaw_err_untouched (P : Prims) (s : State) (m : Bytes) (tagv : UInt8) (ct ad : Bytes)
+    (h : (pullRaw P s m tagv ct ad).res = .err) :
+    (pullRaw P s m tagv ct ad).st = s ∧ (pullRaw P s m tagv ct ad).buf = m ∧
+      (pullRaw P s m tagv ct ad).tag = tagv := by
+  rw [pullRaw_eq_pullChecked] at h ⊢
+  rcases pullChecked_cases P s m tagv ct ad with e | e
+  · rw [e] at h ⊢
+    rw [pull_eq] at h ⊢
+    by_cases a1 : ct.length < 17
+    · rw [if_pos a1]; exact ⟨rfl, rfl, rfl⟩
+    rw [if_neg a1] at h ⊢
+    by_cases a2 : m.length < ct.length - 17
+    · rw [if_pos a2]; exact ⟨rfl, rfl, rfl⟩
+    rw [if_neg a2] at h ⊢
+    by_cases a3 : ct.drop (1 + (ct.length - 17)) ≠ pullMac P s ct ad
+    · rw [if_pos a3]; exact ⟨rfl, rfl, rfl⟩
+    · rw [if_neg a3] at h; cases h
+  · rw [e]; exact ⟨rfl, rfl, rfl⟩
+
+/-! #### the classic `pull` before fix E16 (counter-model `pullRawOld16`) -/
+
+/-- pre-fix code (E16): below the crate's limit the old code is the total model -/
+theorem pullRawOld16_eq_pull (P : Prims) (s : State) (m : Bytes) (tagv : UInt8) (ct ad : Bytes)
+    (h3 : ct.length ≤ STREAM_BODY_MAX + 17) : pullRawOld16 P s m tagv ct ad = pull P s m tagv ct ad := by
+  unfold pullRawOld16 pullRawWithOld16 pullRawBodyOld16
+  rw [pull_eq]
+  by_cases h1 : ct.length < 17
+  · rw [pullRawBodyWith_short _ P s m ct ad h1, if_pos h1]
+  rw [if_neg h1]
+  by_cases h2 : m.length < ct.length - 17
+  · rw [pullRawBodyWith_smallbuf _ _ P s m ct ad (by omega) h2, if_pos h2]
+  rw [if_neg h2, pullRawBodyWith_main _ _ P s m ct ad (by omega) (by omega) h3]
+  by_cases hauth : ct.drop (1 + (ct.length - 17)) ≠ pullMac P s ct ad
+  · rw [if_pos hauth, if_pos hauth]
+  · rw [if_neg hauth, if_neg hauth]
+
+/-- pre-fix code (E16): the old guard `ciphertext.len() > MESSAGEBYTES_MAX` -/
+theorem pullRawOld16_too_long (P : Prims) (s : State) (m : Bytes) (tagv : UInt8) (ct ad : Bytes)
+    (h3 : MESSAGEBYTES_MAX_RAW < ct.length) : pullRawOld16 P s m tagv ct ad = ⟨.err, m, tagv, s⟩ := by
+  unfold pullRawOld16 pullRawWithOld16
+  rw [pullRawBodyOld16_long _ P s m ct ad h3]
+
+/-- **pre-fix code (E16), the defect**: a ciphertext whose length lies strictly between the crate's key-stream
+limit and the old guard of the source, whose authenticator verifies, into a buffer that is large enough: PANIC -/
+theorem pullRawOld16_panics_near_max (P : Prims) (s : State) (m : Bytes) (tagv : UInt8) (ct ad : Bytes)
     (h1 : STREAM_BODY_MAX + 17 < ct.length) (h3 : ct.length ≤ MESSAGEBYTES_MAX_RAW)
     (h2 : ct.length - 17 ≤ m.length)
     (hauth : ct.drop (1 + (ct.length - 17)) = pullMac P s ct ad) :
-    pullRaw P s m tagv ct ad = ⟨.panic, m, tagv, s⟩ := by
-  unfold pullRaw pullRawWith
-  rw [pullRawBody_near_max _ P s m ct ad h1 h3 h2 hauth]
+    pullRawOld16 P s m tagv ct ad = ⟨.panic, m, tagv, s⟩ := by
+  unfold pullRawOld16 pullRawWithOld16
+  rw [pullRawBodyOld16_near_max _ P s m ct ad h1 h3 h2 hauth]
 
-/-- exactly when the classic `pull`, as written, panics -/
-theorem pullRaw_panic_iff (P : Prims) (s : State) (m : Bytes) (tagv : UInt8) (ct ad : Bytes) :
-    (pullRaw P s m tagv ct ad).res = .panic ↔
+/-- pre-fix code (E16): exactly when the classic `pull` before the fix panics -/
+theorem pullRawOld16_panic_iff (P : Prims) (s : State) (m : Bytes) (tagv : UInt8) (ct ad : Bytes) :
+    (pullRawOld16 P s m tagv ct ad).res = .panic ↔
       STREAM_BODY_MAX + 17 < ct.length ∧ ct.length ≤ MESSAGEBYTES_MAX_RAW ∧ ct.length - 17 ≤ m.length ∧
         ct.drop (1 + (ct.length - 17)) = pullMac P s ct ad := by
   have hB := STREAM_BODY_MAX_eq
@@ -322,65 +482,58 @@ theorem pullRaw_panic_iff (P : Prims) (s : State) (m : Bytes) (tagv : UInt8) (ct
   constructor
   · intro h
     by_cases h3 : MESSAGEBYTES_MAX_RAW < ct.length
-    · rw [pullRaw_too_long P s m tagv ct ad h3] at h; cases h
+    · rw [pullRawOld16_too_long P s m tagv ct ad h3] at h; cases h
     by_cases h1 : ct.length ≤ STREAM_BODY_MAX + 17
-    · rw [pullRaw_eq_pull P s m tagv ct ad h1, pull_eq] at h
+    · rw [pullRawOld16_eq_pull P s m tagv ct ad h1, pull_eq] at h
       split at h; · cases h
       split at h; · cases h
       split at h <;> cases h
     by_cases h2 : m.length < ct.length - 17
-    · unfold pullRaw pullRawWith at h
-      rw [pullRawBody_smallbuf _ P s m ct ad (by omega) h2] at h; cases h
+    · unfold pullRawOld16 pullRawWithOld16 pullRawBodyOld16 at h
+      rw [pullRawBodyWith_smallbuf _ _ P s m ct ad (by omega) h2] at h; cases h
     by_cases hauth : ct.drop (1 + (ct.length - 17)) = pullMac P s ct ad
     · exact ⟨by omega, by omega, by omega, hauth⟩
-    · unfold pullRaw pullRawWith at h
-      rw [pullRawBody_near_max_forged _ P s m ct ad (by omega) (by omega) (by omega) hauth] at h; cases h
+    · unfold pullRawOld16 pullRawWithOld16 at h
+      rw [pullRawBodyOld16_near_max_forged _ P s m ct ad (by omega) (by omega) (by omega) hauth] at h; cases h
   · rintro ⟨h1, h3, h2, hauth⟩
-    rw [pullRaw_panics_near_max P s m tagv ct ad h1 h3 h2 hauth]
+    rw [pullRawOld16_panics_near_max P s m tagv ct ad h1 h3 h2 hauth]
 
-/-- the classic `pull`, as written, cannot panic on a ciphertext of at most `64·(2^32 − 3) + 17` bytes … -/
-theorem pullRaw_never_panics (P : Prims) (s : State) (m : Bytes) (tagv : UInt8) (ct ad : Bytes)
-    (h : ct.length ≤ STREAM_BODY_MAX + 17) : (pullRaw P s m tagv ct ad).res ≠ .panic := by
-  intro hp
-  have := (pullRaw_panic_iff P s m tagv ct ad).mp hp
-  omega
+/-- pre-fix code (E16): alias of `pullRawOld16_panics_near_max` under the name the theorem had when `pullRaw` still
+was that code — a statement about the counter-model `pullRawOld16` -/
+theorem pullRaw_panics_near_max (P : Prims) (s : State) (m : Bytes) (tagv : UInt8) (ct ad : Bytes)
+    (h1 : STREAM_BODY_MAX + 17 < ct.length) (h3 : ct.length ≤ MESSAGEBYTES_MAX_RAW)
+    (h2 : ct.length - 17 ≤ m.length)
+    (hauth : ct.drop (1 + (ct.length - 17)) = pullMac P s ct ad) :
+    pullRawOld16 P s m tagv ct ad = ⟨.panic, m, tagv, s⟩ :=
+  pullRawOld16_panics_near_max P s m tagv ct ad h1 h3 h2 hauth
 
-/-- … nor on one that is longer than `MESSAGEBYTES_MAX_RAW` (the weakest hypothesis on the length alone:
-the 47 lengths in between DO panic when the authenticator verifies) -/
-theorem pullRaw_never_panics_outside_window (P : Prims) (s : State) (m : Bytes) (tagv : UInt8) (ct ad : Bytes)
+/-- pre-fix code (E16): alias of `pullRawOld16_panic_iff` (old name; about the counter-model `pullRawOld16`) -/
+theorem pullRaw_panic_iff (P : Prims) (s : State) (m : Bytes) (tagv : UInt8) (ct ad : Bytes) :
+    (pullRawOld16 P s m tagv ct ad).res = .panic ↔
+      STREAM_BODY_MAX + 17 < ct.length ∧ ct.length ≤ MESSAGEBYTES_MAX_RAW ∧ ct.length - 17 ≤ m.length ∧
+        ct.drop (1 + (ct.length - 17)) = pullMac P s ct ad :=
+  pullRawOld16_panic_iff P s m tagv ct ad
+
+/-- pre-fix code (E16): no panic on a ciphertext of at most `64·(2^32 − 3) + 17` bytes, nor on one longer than
+`MESSAGEBYTES_MAX_RAW` (the weakest hypothesis on the length alone: the 47 lengths in between DID panic when
+the authenticator verified) -/
+theorem pullRawOld16_never_panics_outside_window (P : Prims) (s : State) (m : Bytes) (tagv : UInt8) (ct ad : Bytes)
     (h : ct.length ≤ STREAM_BODY_MAX + 17 ∨ MESSAGEBYTES_MAX_RAW < ct.length) :
-    (pullRaw P s m tagv ct ad).res ≠ .panic := by
+    (pullRawOld16 P s m tagv ct ad).res ≠ .panic := by
   intro hp
-  have := (pullRaw_panic_iff P s m tagv ct ad).mp hp
+  have := (pullRawOld16_panic_iff P s m tagv ct ad).mp hp
   omega
 
-/-- whatever the length: an `Err` of the classic `pull` as written leaves state, buffer and tag variable -/
-theorem pullRaw_err_untouched (P : Prims) (s : State) (m : Bytes) (tagv : UInt8) (ct ad : Bytes)
-    (h : (pullRaw P s m tagv ct ad).res = .err) :
-    (pullRaw P s m tagv ct ad).st = s ∧ (pullRaw P s m tagv ct ad).buf = m ∧
-      (pullRaw P s m tagv ct ad).tag = tagv := by
-  unfold pullRaw pullRawWith at h ⊢
-  cases hb : pullRawBody true P s m ct ad with
-  | ok r =>
-    rw [hb] at h
-    simp only at h
-    -- an `Ok` body carries `.ok mlen`
-    exfalso
-    by_cases h1 : ct.length < 17
-    · rw [pullRawBody_short P s m ct ad h1] at hb; cases hb
-    by_cases h3 : MESSAGEBYTES_MAX_RAW < ct.length
-    · rw [pullRawBody_long _ P s m ct ad h3] at hb; cases hb
-    by_cases h2 : m.length < ct.length - 17
-    · rw [pullRawBody_smallbuf _ P s m ct ad (by omega) h2] at hb; cases hb
-    rw [pullRawBody_mid _ P s m ct ad (by omega) (by omega) (by omega)] at hb
-    split at hb
-    · cases hb
-    · cases hk : keystream P s 128 (ct.length - 17) with
-      | ok ks => rw [hk, ok_bind] at hb; cases hb; cases h
-      | err => rw [hk] at hb; cases hb
-      | panic => rw [hk] at hb; cases hb
-  | err => exact ⟨rfl, rfl, rfl⟩
-  | panic => exact ⟨rfl, rfl, rfl⟩
+/-- what fix E16 changed, exactly: outside the 47-length window the code before the fix IS the current code
+(so every theorem about `pullRaw` below the limit was a theorem about the old code too) -/
+theorem pullRawOld16_eq_pullRaw (P : Prims) (s : State) (m : Bytes) (tagv : UInt8) (ct ad : Bytes)
+    (h : ct.length ≤ STREAM_BODY_MAX + 17 ∨ MESSAGEBYTES_MAX_RAW < ct.length) :
+    pullRawOld16 P s m tagv ct ad = pullRaw P s m tagv ct ad := by
+  have hB := STREAM_BODY_MAX_eq
+  have hM := MESSAGEBYTES_MAX_RAW_eq
+  rcases h with h | h
+  · rw [pullRawOld16_eq_pull P s m tagv ct ad h, pullRaw_eq_pull P s m tagv ct ad h]
+  · rw [pullRawOld16_too_long P s m tagv ct ad h, pullRaw_err_near_max P s m tagv ct ad (by omega)]
 
 /-- counter-model: the code before fix E5 panics on every ciphertext shorter than 17 bytes -/
 theorem pullRawOld_short_panics (P : Prims) (s : State) (m : Bytes) (tagv : UInt8) (ct ad : Bytes)
@@ -395,54 +548,96 @@ theorem pullRawOld_eq_of_long (P : Prims) (s : State) (m : Bytes) (tagv : UInt8)
 
 /-! ### object layer -/
 
-/-- `DryocStream::pull` in source order (state threaded through the `?`) is the model function `objPullRaw`,
-which threads the state of the total `pull` in the same way -/
-theorem objPullCode_eq_objPullRaw (P : Prims) (s : State) (ct ad : Bytes) (h3 : ct.length ≤ STREAM_BODY_MAX + 17) :
-    objPullCode P s ct ad = objPullRaw P s ct ad := by
-  unfold objPullCode objPullRawWith objPullRaw
+/-- `objPullChecked` (the guarded total model with the state threaded) is `objPullRaw` up to the limit … -/
+theorem objPullChecked_eq_objPullRaw (P : Prims) (s : State) (ct ad : Bytes)
+    (h3 : ct.length ≤ STREAM_BODY_MAX + 17) : objPullChecked P s ct ad = objPullRaw P s ct ad := by
+  unfold objPullChecked objPullRaw
+  rw [pullChecked_eq_pull P s _ 0 ct ad (by rw [KEYSTREAM_MESSAGEBYTES_MAX_eq]; exact h3)]
+
+/-- … and a plain `Err` with the state untouched beyond it -/
+theorem objPullChecked_too_long (P : Prims) (s : State) (ct ad : Bytes)
+    (h3 : STREAM_BODY_MAX + 17 < ct.length) : objPullChecked P s ct ad = (.err, s) := by
+  have hB := STREAM_BODY_MAX_eq
+  unfold objPullChecked
+  rw [if_neg (by unfold ABYTES; omega),
+    pullChecked_too_long P s _ 0 ct ad (by rw [KEYSTREAM_MESSAGEBYTES_MAX_eq]; exact h3)]
+
+/-- **`DryocStream::pull` in source order (state threaded through the `?`) is the guarded total model
+`objPullChecked`, for every ciphertext** (any length) -/
+theorem objPullCode_eq_objPullChecked (P : Prims) (s : State) (ct ad : Bytes) :
+    objPullCode P s ct ad = objPullChecked P s ct ad := by
+  unfold objPullCode objPullRawWith objPullRawGen objPullChecked
   by_cases h1 : ct.length < ABYTES
   · rw [if_pos ⟨rfl, h1⟩, if_pos h1]
   · rw [if_neg (fun h => h1 h.2), if_neg h1, checkedSub_ok (by omega)]
     simp only [if_true]
     have : pullRawWith true P s (zeros (ct.length - ABYTES)) 0 ct ad
-        = pull P s (zeros (ct.length - ABYTES)) 0 ct ad := pullRaw_eq_pull P s _ 0 ct ad h3
+        = pullChecked P s (zeros (ct.length - ABYTES)) 0 ct ad := pullRaw_eq_pullChecked P s _ 0 ct ad
     rw [this]
-    generalize pull P s (zeros (ct.length - ABYTES)) 0 ct ad = r
+    generalize pullChecked P s (zeros (ct.length - ABYTES)) 0 ct ad = r
     rcases r with ⟨res, buf, tag, st⟩
     cases res <;> rfl
+
+/-- `DryocStream::pull` in source order is the model function `objPullRaw`, which threads the state of the
+guard-free total `pull` in the same way — up to the limit the third guard enforces (beyond it `objPullCode` is
+an `Err`, `objPullCode_too_long`, and the guard-free model computes) -/
+theorem objPullCode_eq_objPullRaw (P : Prims) (s : State) (ct ad : Bytes) (h3 : ct.length ≤ STREAM_BODY_MAX + 17) :
+    objPullCode P s ct ad = objPullRaw P s ct ad := by
+  rw [objPullCode_eq_objPullChecked, objPullChecked_eq_objPullRaw P s ct ad h3]
 
 theorem objPullCode_eq_objPull (P : Prims) (s : State) (ct ad : Bytes) (h3 : ct.length ≤ STREAM_BODY_MAX + 17) :
     objPullCode P s ct ad = objPull P s ct ad := by
   rw [objPullCode_eq_objPullRaw P s ct ad h3, objPullRaw_eq_objPull]
 
-theorem objPullCode_too_long (P : Prims) (s : State) (ct ad : Bytes) (h3 : MESSAGEBYTES_MAX_RAW < ct.length) :
+/-- fixed code (E16): beyond the limit `DryocStream::pull` is an `Err`, state untouched -/
+theorem objPullCode_too_long (P : Prims) (s : State) (ct ad : Bytes) (h3 : STREAM_BODY_MAX + 17 < ct.length) :
     objPullCode P s ct ad = (.err, s) := by
-  have hM : MESSAGEBYTES_MAX_RAW = 274877906816 := by decide
-  unfold objPullCode objPullRawWith
+  rw [objPullCode_eq_objPullChecked, objPullChecked_too_long P s ct ad h3]
+
+/-- **`DryocStream::pull` as written never panics**, for every ciphertext (any length), AD and state -/
+theorem objPullCode_never_panics (P : Prims) (s : State) (ct ad : Bytes) :
+    (objPullCode P s ct ad).1 ≠ .panic := by
+  by_cases h3 : ct.length ≤ STREAM_BODY_MAX + 17
+  · rw [objPullCode_eq_objPull P s ct ad h3]
+    rcases objPull_cases P s ct ad with h | ⟨r, _, _, h⟩ <;> rw [h] <;> simp
+  · rw [objPullCode_too_long P s ct ad (by omega)]; simp
+
+/-- a rejected `DryocStream::pull`, statement by statement, leaves the stream state as it was — every length -/
+theorem objPullCode_err_state (P : Prims) (s : State) (ct ad : Bytes)
+    (h : (objPullCode P s ct ad).1 = .err) : (objPullCode P s ct ad).2 = s := by
+  by_cases h3 : ct.length ≤ STREAM_BODY_MAX + 17
+  · rw [objPullCode_eq_objPull P s ct ad h3] at h ⊢
+    exact objPull_err_state P s ct ad h
+  · rw [objPullCode_too_long P s ct ad (by omega)]
+
+/-- pre-fix code (E16): the object layer inherited the defect: a ciphertext in the window whose authenticator
+verifies -/
+theorem objPullCodeOld16_panics_near_max (P : Prims) (s : State) (ct ad : Bytes)
+    (h1 : STREAM_BODY_MAX + 17 < ct.length) (h3 : ct.length ≤ MESSAGEBYTES_MAX_RAW)
+    (hauth : ct.drop (1 + (ct.length - 17)) = pullMac P s ct ad) :
+    objPullCodeOld16 P s ct ad = (.panic, s) := by
+  have hB := STREAM_BODY_MAX_eq
+  unfold objPullCodeOld16 objPullRawGen
   rw [if_neg (by unfold ABYTES; omega), checkedSub_ok (by unfold ABYTES; omega)]
-  have : pullRawWith true P s (zeros (ct.length - ABYTES)) 0 ct ad = ⟨.err, _, 0, s⟩ :=
-    pullRaw_too_long P s _ 0 ct ad h3
+  have : pullRawWithOld16 true P s (zeros (ct.length - ABYTES)) 0 ct ad = ⟨.panic, _, 0, s⟩ :=
+    pullRawOld16_panics_near_max P s _ 0 ct ad h1 h3 (by rw [zeros_length]; unfold ABYTES; omega) hauth
   simp only [this]
 
-/-- the object layer inherits the latent defect: a ciphertext in the window whose authenticator verifies -/
+/-- pre-fix code (E16): alias of `objPullCodeOld16_panics_near_max` (old name; about `objPullCodeOld16`) -/
 theorem objPullCode_panics_near_max (P : Prims) (s : State) (ct ad : Bytes)
     (h1 : STREAM_BODY_MAX + 17 < ct.length) (h3 : ct.length ≤ MESSAGEBYTES_MAX_RAW)
     (hauth : ct.drop (1 + (ct.length - 17)) = pullMac P s ct ad) :
-    objPullCode P s ct ad = (.panic, s) := by
-  have hB := STREAM_BODY_MAX_eq
-  unfold objPullCode objPullRawWith
-  rw [if_neg (by unfold ABYTES; omega), checkedSub_ok (by unfold ABYTES; omega)]
-  have : pullRawWith true P s (zeros (ct.length - ABYTES)) 0 ct ad = ⟨.panic, _, 0, s⟩ :=
-    pullRaw_panics_near_max P s _ 0 ct ad h1 h3 (by rw [zeros_length]; unfold ABYTES; omega) hauth
-  simp only [this]
+    objPullCodeOld16 P s ct ad = (.panic, s) :=
+  objPullCodeOld16_panics_near_max P s ct ad h1 h3 hauth
 
-theorem objPullCode_never_panics (P : Prims) (s : State) (ct ad : Bytes)
+/-- pre-fix code (E16): outside the window the object layer before the fix is the current one -/
+theorem objPullCodeOld16_eq_objPullCode (P : Prims) (s : State) (ct ad : Bytes)
     (h : ct.length ≤ STREAM_BODY_MAX + 17 ∨ MESSAGEBYTES_MAX_RAW < ct.length) :
-    (objPullCode P s ct ad).1 ≠ .panic := by
-  rcases h with h3 | h3
-  · rw [objPullCode_eq_objPull P s ct ad h3]
-    rcases objPull_cases P s ct ad with h | ⟨r, _, _, h⟩ <;> rw [h] <;> simp
-  · rw [objPullCode_too_long P s ct ad h3]; simp
+    objPullCodeOld16 P s ct ad = objPullCode P s ct ad := by
+  unfold objPullCodeOld16 objPullCode objPullRawWith objPullRawGen
+  have : ∀ n, pullRawWithOld16 true P s (zeros n) 0 ct ad = pullRawWith true P s (zeros n) 0 ct ad :=
+    fun n => pullRawOld16_eq_pullRaw P s (zeros n) 0 ct ad h
+  simp only [this]
 
 /-- what the `expect` of the code before the fix "pull keeps undefined tag bits" does to the current result: an accepted message whose tag
 byte has a bit outside `0b11` becomes a panic — after the state has advanced -/
@@ -451,7 +646,7 @@ theorem objPullOld_eq (P : Prims) (s : State) (ct ad : Bytes) :
       match objPullCode P s ct ad with
       | (.ok (msg, t), st) => if t &&& 0xFC = 0 then (.ok (msg, t), st) else (.panic, st)
       | r => r := by
-  unfold objPullOld objPullCode objPullRawWith
+  unfold objPullOld objPullCode objPullRawWith objPullRawGen
   by_cases h1 : ct.length < ABYTES
   · simp [h1]
   · simp only [h1, and_false, if_false, if_true]
@@ -471,7 +666,7 @@ theorem objPullOld_eq (P : Prims) (s : State) (ct ad : Bytes) :
 
 theorem objPullNoGuard_short_panics (P : Prims) (s : State) (ct ad : Bytes) (h : ct.length < 17) :
     objPullNoGuard P s ct ad = (.panic, s) := by
-  unfold objPullNoGuard objPullRawWith
+  unfold objPullNoGuard objPullRawWith objPullRawGen
   rw [if_neg (by simp), checkedSub_panic (by unfold ABYTES; exact h)]
 
 /-! ### a concrete (toy) instantiation for the non-vacuity examples
